@@ -75,7 +75,7 @@ theorem copyIn_content (w : World) (bufs : List Seg) (data : Bytes)
       = data.take (min data.length (total bufs)) := by
   obtain ⟨_, _, m3⟩ := copyIn_mem w bufs data hnd hin
   apply List.ext_getElem
-  · simp; omega
+  · simp
   · intro j h1 h2
     simp only [List.length_map, List.length_take, length_addrs] at h1
     simp only [List.getElem_map, List.getElem_take]
@@ -112,18 +112,17 @@ theorem fwr_zero {β : Type} (S : Nat → Bytes) (hS : S 0 = []) (w : World) (bu
   cases hn
   exact ⟨Nat.zero_le _, fun _ _ => rfl, fun _ => by simp [hS]⟩
 
-theorem copyIn_fwr (w : World) (bufs : List Seg) (data : Bytes) (hin : InMem w.mem (addrs bufs)) :
+theorem copyIn_fwr {β : Type} (w : World) (bufs : List Seg) (data : Bytes) (hin : InMem w.mem (addrs bufs)) (a : β) :
     FWr (fun n => data.take n) w bufs
-      (match copyIn w bufs data with | (w1, t) => ((.ok t : Except IoErr Nat), w1, ())) := by
+      ((.ok (copyIn w bufs data).2 : Except IoErr Nat), (copyIn w bufs data).1, a) := by
   have hs := copyIn_spec w bufs data
   have hf := copyIn_frame w bufs data hin
   have hc := copyIn_content w bufs data
-  rcases hci : copyIn w bufs data with ⟨w1, t⟩
-  rw [hci] at hs hf hc
-  simp only at hs hf hc ⊢
+  simp only at hs
   refine ⟨hf.1, ?_, by intro e he; cases he⟩
   intro n hn
   cases hn
+  simp only
   rw [hs.2.2.2]
   refine ⟨Nat.min_le_right _ _, ?_, fun hnd => hc hnd hin⟩
   rw [take_min_total]; exact hf.2
@@ -145,7 +144,7 @@ theorem patBytes_add (seed start a b : Nat) :
     · rw [List.getElem_append_left (by simpa using hj)]
       simp [patBytes]
     · rw [List.getElem_append_right (by simpa using Nat.le_of_not_lt hj)]
-      simp only [patBytes, List.getElem_map, List.getElem_range, length_patBytes, List.length_map, List.length_range]
+      simp only [patBytes, List.getElem_map, List.getElem_range, List.length_map, List.length_range]
       congr 1; omega
 
 theorem patBytes_take (seed start n k : Nat) (h : k ≤ n) : (patBytes seed start n).take k = patBytes seed start k := by
@@ -154,46 +153,49 @@ theorem patBytes_take (seed start n k : Nat) (h : k ≤ n) : (patBytes seed star
 
 /-! ### the scripted source -/
 
+theorem sourceData_fwr {β : Type} (w : World) (bufs : List Seg) (seed start k : Nat) (hk : k ≤ total bufs)
+    (hin : InMem w.mem (addrs bufs)) (a : β) :
+    FWr (fun n => patBytes seed start n) w bufs
+      ((.ok (copyIn w bufs (patBytes seed start k)).2 : Except IoErr Nat), (copyIn w bufs (patBytes seed start k)).1, a) := by
+  obtain ⟨h1, h2, h3⟩ := copyIn_fwr w bufs (patBytes seed start k) hin a
+  refine ⟨h1, ?_, h3⟩
+  intro n hn
+  obtain ⟨a1, b1, c1⟩ := h2 n hn
+  refine ⟨a1, b1, ?_⟩
+  intro hnd
+  have hs := (copyIn_spec w bufs (patBytes seed start k)).2.2.2
+  simp only [length_patBytes] at hs
+  have hnk : n = k := by
+    simp only [Except.ok.injEq] at hn
+    omega
+  rw [c1 hnd]
+  simp only
+  rw [hnk, List.take_of_length_le (by simp)]
+
 theorem sourceCall_fwr (s : Script) (w : World) (bufs : List Seg) (at_ : Option Nat) (hin : InMem w.mem (addrs bufs)) :
     FWr (fun n => patBytes s.seed (at_.getD s.pos) n) w bufs (s.sourceCall w bufs at_) := by
-  unfold Script.sourceCall
-  have hpop : (s.pop).2.seed = s.seed ∧ (s.pop).2.pos = s.pos := by
-    unfold Script.pop; cases s.answers <;> exact ⟨rfl, rfl⟩
-  rcases hp : s.pop with ⟨a, s1⟩
-  rw [hp] at hpop
-  obtain ⟨hseed, hpos⟩ := hpop
-  simp only at hseed hpos ⊢
-  have hstart : (match at_ with | some o => o | none => s1.pos) = at_.getD s.pos := by
-    cases at_ <;> simp [hpos]
-  have key : ∀ k, k ≤ total bufs → FWr (fun n => patBytes s.seed (at_.getD s.pos) n) w bufs
-      ((.ok (copyIn w bufs (patBytes s1.seed (match at_ with | some o => o | none => s1.pos) k)).2 : Except IoErr Nat),
-       (copyIn w bufs (patBytes s1.seed (match at_ with | some o => o | none => s1.pos) k)).1,
-       ({ s1 with offered := s1.offered ++ [bufs],
-                  pos := match at_ with
-                    | some _ => s1.pos
-                    | none => s1.pos + (copyIn w bufs (patBytes s1.seed (match at_ with | some o => o | none => s1.pos) k)).2 } : Script)) := by
-    intro k hk
-    rw [hstart, hseed]
-    have h := copyIn_fwr w bufs (patBytes s.seed (at_.getD s.pos) k) hin
-    obtain ⟨h1, h2, h3⟩ := h
-    refine ⟨h1, ?_, by intro e he; cases he⟩
-    intro n hn
-    obtain ⟨a, b, c⟩ := h2 n hn
-    refine ⟨a, b, ?_⟩
-    intro hnd
-    have hs := (copyIn_spec w bufs (patBytes s.seed (at_.getD s.pos) k)).2.2.2
-    simp only [length_patBytes] at hs
-    have hnk : n = k := by
-      simp only [Except.ok.injEq] at hn
-      omega
-    rw [c hnd]
+  have herr : ∀ (e : IoErr) (a : Script), FWr (fun n => patBytes s.seed (at_.getD s.pos) n) w bufs
+      ((.error e : Except IoErr Nat), w, a) := by
+    intro e a
+    refine ⟨fun _ => rfl, ?_, fun _ _ => rfl⟩
+    intro n hn; cases hn
+  unfold Script.sourceCall Script.pop
+  cases s.answers with
+  | nil =>
     simp only
-    rw [hnk, List.take_of_length_le (by simp)]
-  match a with
-  | some .err => exact ⟨fun _ => rfl, by intro n hn; cases hn, fun _ _ => rfl⟩
-  | some .intr => exact ⟨fun _ => rfl, by intro n hn; cases hn, fun _ _ => rfl⟩
-  | some (.n k) => exact key _ (Nat.min_le_right _ _)
-  | none => exact key _ (Nat.le_refl _)
+    cases at_ with
+    | none => exact sourceData_fwr w bufs s.seed s.pos _ (Nat.le_refl _) hin _
+    | some o => exact sourceData_fwr w bufs s.seed o _ (Nat.le_refl _) hin _
+  | cons a rest =>
+    simp only
+    cases a with
+    | err => exact herr _ _
+    | intr => exact herr _ _
+    | n k =>
+      simp only
+      cases at_ with
+      | none => exact sourceData_fwr w bufs s.seed s.pos _ (Nat.min_le_right _ _) hin _
+      | some o => exact sourceData_fwr w bufs s.seed o _ (Nat.min_le_right _ _) hin _
 
 theorem readVectored_fwr (s : Script) (w : World) (bufs : List Seg) (at_ : Option Nat) (hin : InMem w.mem (addrs bufs)) :
     FWr (fun n => patBytes s.seed (at_.getD s.pos) n) w bufs (s.readVectored w bufs at_) := by
@@ -225,31 +227,38 @@ theorem readVectored_pos (s : Script) (w : World) (bufs : List Seg) (at_ : Optio
     ∧ (∀ n, (s.readVectored w bufs at_).1 = .ok n →
         (s.readVectored w bufs at_).2.2.pos = match at_ with | some _ => s.pos | none => s.pos + n)
     ∧ (∀ e, (s.readVectored w bufs at_).1 = .error e → (s.readVectored w bufs at_).2.2.pos = s.pos) := by
-  have hpop : (s.pop).2.seed = s.seed ∧ (s.pop).2.pos = s.pos := by
-    unfold Script.pop; cases s.answers <;> exact ⟨rfl, rfl⟩
   have key : ∀ bufs', (s.sourceCall w bufs' at_).2.2.seed = s.seed
       ∧ (∀ n, (s.sourceCall w bufs' at_).1 = .ok n →
           (s.sourceCall w bufs' at_).2.2.pos = match at_ with | some _ => s.pos | none => s.pos + n)
       ∧ (∀ e, (s.sourceCall w bufs' at_).1 = .error e → (s.sourceCall w bufs' at_).2.2.pos = s.pos) := by
     intro bufs'
-    unfold Script.sourceCall
-    rcases hp : s.pop with ⟨a, s1⟩
-    rw [hp] at hpop
-    obtain ⟨hseed, hpos⟩ := hpop
-    simp only at hseed hpos ⊢
-    match a with
-    | some .err => exact ⟨hseed, by intro n hn; cases hn, fun _ _ => hpos⟩
-    | some .intr => exact ⟨hseed, by intro n hn; cases hn, fun _ _ => hpos⟩
-    | some (.n k) =>
-      refine ⟨hseed, ?_, by intro e he; cases he⟩
-      intro n hn
-      simp only [Except.ok.injEq] at hn
-      cases at_ <;> simp [hpos, hn]
-    | none =>
-      refine ⟨hseed, ?_, by intro e he; cases he⟩
-      intro n hn
-      simp only [Except.ok.injEq] at hn
-      cases at_ <;> simp [hpos, hn]
+    unfold Script.sourceCall Script.pop
+    cases s.answers with
+    | nil =>
+      simp only
+      refine ⟨trivial, ?_, ?_⟩
+      · intro n hn
+        simp only [Except.ok.injEq] at hn
+        cases at_ <;> simp [hn]
+      · intro e he; cases he
+    | cons a rest =>
+      simp only
+      cases a with
+      | err =>
+        refine ⟨rfl, ?_, ?_⟩
+        · intro n hn; cases hn
+        · intro _ _; rfl
+      | intr =>
+        refine ⟨rfl, ?_, ?_⟩
+        · intro n hn; cases hn
+        · intro _ _; rfl
+      | n k =>
+        simp only
+        refine ⟨trivial, ?_, ?_⟩
+        · intro n hn
+          simp only [Except.ok.injEq] at hn
+          cases at_ <;> simp [hn]
+        · intro e he; cases he
   have zero : (((.ok 0 : Except IoErr Nat), w, s) : Except IoErr Nat × World × Script).2.2.seed = s.seed
       ∧ (∀ n, (((.ok 0 : Except IoErr Nat), w, s) : Except IoErr Nat × World × Script).1 = .ok n →
           (((.ok 0 : Except IoErr Nat), w, s) : Except IoErr Nat × World × Script).2.2.pos
